@@ -181,6 +181,7 @@ Proof.
   destruct (arith_cases c Hc) as [->|[->|[->|[->|[->|[->| ->]]]]]]; simpl Ascii.eqb; cbv iota;
   rewrite Hb1, Hb2; simpl; rewrite Hc1, Hc2; simpl; unfold scalar_op in Hop; simpl in Hop;
   try (injection Hop as <-; reflexivity); try discriminate.
-  destruct (vdiv_raw a b); [injection Hop as <-; reflexivity | discriminate].
+  - destruct (vdiv_raw a b); [injection Hop as <-; reflexivity | discriminate].
+  - rewrite Hop. reflexivity.
 Qed.
 End Apply.
